@@ -7,10 +7,13 @@ PID = 'C02'
 CHECK_FN = 'check_C02'
 RULE = ('random worlds with zero, one or several bad items (failing/erroring tests in any phase, unexpected successes, failing '
         'subtests, layer setUp/tearDown errors, tearDown NotImplementedError which is not an error) in sequential, resumed and -j modes, '
+        'plus worlds in which a layer subprocess is killed (exit 0/3, SIGKILL, SIGSEGV) at import, in layer setUp, in a test, in layer '
+        'tearDown or while writing its report, or cannot be started, '
         'tests writing header-like and arbitrary text to stdout/stderr; about a third of the worlds are all-green; '
         'non-trivial = at least two tests and a layer')
 TRUSTED_BASE = COMMON_TRUSTED
-ASSUMPTIONS = COMMON_ASSUMPTIONS + ['child death / spawn failure / truncated reports are injected in the C07 check, whose predicate includes the verdict']
+ASSUMPTIONS = COMMON_ASSUMPTIONS + ['for worlds with an injected subprocess fault (child killed at import / layer setUp / test / layer tearDown / while '
+                                    'writing its report, or not startable) only the verdict predicate is evaluated, not the run model']
 NOISE = ['3 0 0\n', '1 1 1\nfoo\nbar\n', 'Ran 5 tests, 0 failures, 0 errors\n', '\x00\xff garbage', '0 0 0']
 
 
@@ -31,8 +34,35 @@ def generate(rng, tier, rep):
             if rng.random() < 0.3 and not T.get('deco_skip'):
                 T['writes'] = {'body': [[rng.choice(['stdout', 'stderr']), rng.choice(NOISE)]]}
         cases.append(c)
+    # injected subprocess faults: the verdict must be 'failed' whatever else happened
+    m = {'quick': 40, 'thorough': 400, 'search': 0}[tier]
+    for i in range(m):
+        c = worldcase.gen_world(rng, faults=False, rich=False, opts=[rng.choice(['-j2', '-j3'])])
+        if not c['layers']:
+            c['layers'] = worldcase.gen_layers(rng, 1, faults=False)
+        li = rng.randrange(len(c['layers']))
+        c['tests'].append({'layer': li})
+        how = rng.choice(['exit0', 'exit3', 'kill', 'segv'])
+        where = ['import', 'setUp', 'body', 'tearDown', 'report', 'spawn'][i % 6]
+        if where == 'import':
+            c['die_import'] = how
+        elif where == 'setUp':
+            c['layers'][li].setdefault('hooks', {})['setUp'] = ['die:' + how]
+        elif where == 'tearDown':
+            c['layers'][li].setdefault('hooks', {})['tearDown'] = ['die:' + how]
+        elif where == 'body':
+            c['tests'][-1]['body'] = ['die', how]
+        elif where == 'report':
+            c['tests'][-1].update({'body': 'fail', 'str_die': how})
+            c['tests'].append({'layer': li, 'body': 'fail'})
+        else:
+            c['child_cwd'] = '/nonexistent/verif/dir'
+        c['injected'] = where + '/' + how
+        cases.append(c)
     for c in cases:
         count_dist(rep, c)
+        if c.get('injected'):
+            rep.count('injected:' + c['injected'].split('/')[0])
         rep.count('green' if not any(set(T) - {'layer', 'writes'} for T in c['tests']) else 'not-green-candidate')
     return cases
 
